@@ -459,3 +459,125 @@ func ruleR09_17(w *World, r *Report) {
 		r.Check(bad == "", "TransactionDatatype.ResetTransaction/"+field+" stored before success", u.Pos(fn.Pos()), "every success exit follows the store", "ResetTransaction returns nil at "+bad+" without storing "+field+": the rollback point keeps what it held before (for a new subscriber the identifiers it had before subscribing), and the next failed transaction restores that")
 	}
 }
+
+// recoversAndCalls reports whether fn (or a closure it defers) calls recover(), and whether fn calls one of its own
+// function-typed parameters (the handler it wraps).
+func recoversAndCalls(fn *ssa.Function) (recovers, callsParam bool) {
+	if fn == nil {
+		return
+	}
+	for _, f := range withClosures(fn) {
+		for _, c := range callsIn(f) {
+			if b, ok := c.Common().Value.(*ssa.Builtin); ok && b.Name() == "recover" {
+				recovers = true
+			}
+		}
+	}
+	for _, c := range callsIn(fn) {
+		if p, ok := c.Common().Value.(*ssa.Parameter); ok && p.Parent() == fn {
+			callsParam = true
+		}
+	}
+	return
+}
+
+// R16.15 a panic of a gRPC handler does not end the server
+func ruleR16_15(w *World, r *Report) {
+	u := w.Server()
+	if u == nil {
+		return
+	}
+	r.Rule("R16.15", "the server's gRPC server is created with a unary interceptor that calls the handler under a deferred recover (grpc runs every handler in a goroutine of its own; an unrecovered panic there ends the process, and handlers such as PatchDocument replay stored operations, whose bodies the server never validated)", 1)
+	n := 0
+	for _, fn := range u.ordaFuncs(func(p string) bool { return strings.HasPrefix(p, ordaPrefix+"/server/") }) {
+		for _, c := range callsIn(fn) {
+			cal := staticCallee(c)
+			if cal == nil || cal.Pkg == nil || cal.Pkg.Pkg.Path() != "google.golang.org/grpc" || cal.Name() != "NewServer" {
+				continue
+			}
+			n++
+			good := false
+			// the options: a variadic slice whose elements are results of grpc.UnaryInterceptor / ChainUnaryInterceptor
+			var opts []ssa.Value
+			for _, a := range c.Common().Args {
+				opts = append(opts, a)
+			}
+			seen := map[ssa.Value]bool{}
+			var visit func(v ssa.Value, depth int)
+			visit = func(v ssa.Value, depth int) {
+				if v == nil || seen[v] || depth > 12 {
+					return
+				}
+				seen[v] = true
+				switch x := v.(type) {
+				case *ssa.Call:
+					oc := staticCallee(x)
+					if oc != nil && oc.Pkg != nil && oc.Pkg.Pkg.Path() == "google.golang.org/grpc" && (oc.Name() == "UnaryInterceptor" || oc.Name() == "ChainUnaryInterceptor") {
+						for _, a := range x.Call.Args {
+							visit(a, depth+1)
+						}
+						return
+					}
+					if vals, ok := helperResults(x, 0); ok {
+						for _, e := range vals {
+							visit(e, depth+1)
+						}
+					}
+				case *ssa.MakeClosure:
+					if f, ok := x.Fn.(*ssa.Function); ok {
+						target := f
+						// a bound method value: the wrapper calls the method
+						if f.Synthetic != "" {
+							for _, cc := range callsIn(f) {
+								if m := staticCallee(cc); m != nil {
+									target = m
+								}
+							}
+						}
+						if rec, calls := recoversAndCalls(target); rec && calls {
+							good = true
+						}
+					}
+				case *ssa.Function:
+					if rec, calls := recoversAndCalls(x); rec && calls {
+						good = true
+					}
+				case *ssa.Slice:
+					visit(x.X, depth+1)
+				case *ssa.Alloc:
+					if refs := x.Referrers(); refs != nil {
+						for _, rf := range *refs {
+							if ia, ok := rf.(*ssa.IndexAddr); ok && ia.Referrers() != nil {
+								for _, r2 := range *ia.Referrers() {
+									if st, ok := r2.(*ssa.Store); ok && st.Addr == ssa.Value(ia) {
+										visit(st.Val, depth+1)
+									}
+								}
+							}
+							if st, ok := rf.(*ssa.Store); ok && st.Addr == ssa.Value(x) {
+								visit(st.Val, depth+1)
+							}
+						}
+					}
+				case *ssa.MakeInterface:
+					visit(x.X, depth+1)
+				case *ssa.ChangeType:
+					visit(x.X, depth+1)
+				case *ssa.UnOp:
+					visit(x.X, depth+1)
+				case *ssa.Phi:
+					for _, e := range x.Edges {
+						visit(e, depth+1)
+					}
+				}
+			}
+			for _, o := range opts {
+				visit(o, 0)
+			}
+			r.Check(good, fnName(flatRoot(fn))+"/gRPC server recovers handler panics", u.Pos(c.Pos()), "a unary interceptor with a deferred recover wraps every handler", "the gRPC server is created without an interceptor that recovers a handler's panic: one request whose handler panics (e.g. PatchDocument of a document whose log holds an operation that cannot be executed) ends the server process for every client")
+		}
+	}
+	if n == 0 {
+		r.Lost("the creation of the gRPC server (grpc.NewServer)")
+	}
+}
